@@ -338,3 +338,143 @@ func VH06c_unsub_qlen() {
 	verif.Reach("qlen-kept")
 	sock.Close()
 }
+
+// VH06e_burst: a SUB socket or context subscribed to "a" and "b", with 0..1
+// matching message already queued. K of {a Recv; Unsubscribe "b"; the receive
+// queue is resized; a message "a.." arrives; a message "b.." arrives} happen at
+// the same moment, under every schedule in which one goroutine stalls at one
+// synchronisation point until the others are at rest. Whatever the order: what
+// Recv returns was published and matched a subscription in force at some point,
+// nothing comes twice -- and afterwards a waiting Recv is completed by the next
+// matching publication, "b.." is no longer delivered once its Unsubscribe
+// returned, "a.." still is.
+func VH06e_burst() {
+	K := verif.Param("K", 2)
+	lab := "C06/burst"
+	sock := vp.New("sub")
+	side := vt.Listen(sock, "a")
+	p0 := side.Peer("p0")
+	r := &subref{name: "sock", sock: sock}
+	if verif.Choice("api", 2) == 1 {
+		c, err := sock.OpenContext()
+		verif.Assert(err == nil, lab+"/open-context")
+		r = &subref{name: "ctx", c: c}
+	}
+	verif.Assert(r.opt().SetOption(mangos.OptionSubscribe, []byte("a")) == nil, lab+"/subscribe-a")
+	verif.Assert(r.opt().SetOption(mangos.OptionSubscribe, []byte("b")) == nil, lab+"/subscribe-b")
+	published := map[byte]bool{} // second byte identifies the publication
+	pub := func(topic byte, n byte) {
+		published[n] = true
+		p0.Deliver([]byte{topic, n})
+	}
+	if verif.Choice("queued", 2) == 1 {
+		pub('a', 1)
+		verif.Quiesce()
+	}
+	type rrec struct {
+		g   *verif.G
+		m   *mangos.Message
+		err error
+	}
+	var recvs []*rrec
+	doRecv := func(name string) *rrec {
+		x := &rrec{}
+		recvs = append(recvs, x)
+		x.g = verif.Go(name, func() { x.m, x.err = r.recvMsg() })
+		return x
+	}
+	var ug, qg *verif.G
+	var uerr, qerr error
+	last := -1
+	for k := 0; k < K; k++ {
+		ev := verif.Choice("ev", 5)
+		verif.Assume(ev > last)
+		last = ev
+		switch ev {
+		case 0:
+			doRecv("recv")
+		case 1:
+			ug = verif.Go("unsubscribe", func() { uerr = r.opt().SetOption(mangos.OptionUnsubscribe, []byte("b")) })
+		case 2:
+			qg = verif.Go("resize", func() { qerr = r.opt().SetOption(mangos.OptionReadQLen, 4) })
+		case 3:
+			pub('a', 2)
+		case 4:
+			pub('b', 3)
+		}
+	}
+	verif.Quiesce()
+	if ug != nil {
+		verif.Assert(ug.Done() && uerr == nil, lab+"/unsubscribe")
+	}
+	if qg != nil {
+		verif.Assert(qg.Done() && qerr == nil, lab+"/resize")
+	}
+	seen := map[byte]bool{}
+	judge := func(x *rrec, afterUnsub bool) {
+		verif.Assert(x.err == nil, lab+"/recv-error")
+		if x.err != nil {
+			return
+		}
+		bd := x.m.Body
+		ok := len(bd) == 2 && published[bd[1]] && (bd[0] == 'a' || bd[0] == 'b')
+		verif.Assert(ok, lab+"/delivered-message-was-never-published-or-matches-no-subscription")
+		if ok {
+			verif.Assert(!seen[bd[1]], lab+"/message-delivered-twice")
+			seen[bd[1]] = true
+			if afterUnsub {
+				verif.Assert(bd[0] == 'a', lab+"/message-for-an-unsubscribed-topic-delivered")
+			}
+		}
+	}
+	var waiting *rrec
+	for _, x := range recvs {
+		if x.g.Done() {
+			judge(x, false)
+		} else {
+			waiting = x
+		}
+	}
+	verif.Reach("burst-done")
+	// epilogue
+	if ug == nil {
+		verif.Assert(r.opt().SetOption(mangos.OptionUnsubscribe, []byte("b")) == nil, lab+"/unsubscribe-later")
+	}
+	if waiting == nil {
+		// drain what the burst left behind (at most two publications)
+		for i := 0; i < 3; i++ {
+			x := doRecv("drain")
+			verif.Quiesce()
+			if !x.g.Done() {
+				waiting = x
+				break
+			}
+			judge(x, true)
+		}
+		verif.Assert(waiting != nil, lab+"/more-deliveries-than-publications")
+		if waiting == nil {
+			return
+		}
+	}
+	pub('b', 8)
+	verif.Quiesce()
+	verif.Assert(!waiting.g.Done(), lab+"/message-for-an-unsubscribed-topic-delivered")
+	if waiting.g.Done() {
+		return
+	}
+	pub('a', 9)
+	verif.Quiesce()
+	verif.Assert(waiting.g.Done(), lab+"/matching-publication-does-not-complete-the-waiting-recv")
+	if !waiting.g.Done() {
+		return
+	}
+	judge(waiting, true)
+	if waiting.err == nil && len(waiting.m.Body) == 2 {
+		verif.Assert(waiting.m.Body[1] == 9, lab+"/waiting-recv-got-something-else-than-the-new-publication")
+	}
+	x := doRecv("extra")
+	verif.Quiesce()
+	verif.Assert(!x.g.Done(), lab+"/invented-or-duplicated-message")
+	verif.Reach("burst-epilogue")
+	sock.Close()
+}
